@@ -52,7 +52,7 @@ class SimRaw(io.RawIOBase):
         return self._w
 
     def seekable(self):
-        return self.role != "STDOUT"
+        return self.role != "STDOUT" and self.path not in self.fs.fifos
 
     def isatty(self):
         return self.role == "STDOUT" and bool(self.fs.knobs.get("stdout_isatty", False))
@@ -130,7 +130,7 @@ class SimRaw(io.RawIOBase):
         return len(b)
 
     def seek(self, offset, whence=0):
-        if self.role == "STDOUT":
+        if self.role == "STDOUT" or self.path in self.fs.fifos:
             raise io.UnsupportedOperation("not seekable")
         if whence == 0:
             self.pos = offset
@@ -192,6 +192,7 @@ class SimFS:
         self.seq = 0
         self.open_objs: list = []
         self.passthrough: list = []
+        self.fifos: set = set()      # paths that are named pipes / process substitutions (readable, not regular)
         self.mtimes: dict = {}       # path -> logical modification time
         self.fds: dict = {}          # simulated descriptors (>= FD_BASE) -> SimRaw
         self.next_fd = FD_BASE
@@ -417,11 +418,21 @@ class SimFS:
         raw.close()
 
     def os_write(self, fd, data):
-        return self.fds[fd].write(data)
+        # like the real os.write (PEP 475) the call is retried when interrupted by a signal
+        while True:
+            try:
+                return self.fds[fd].write(data)
+            except InterruptedError:
+                continue
 
     def os_read(self, fd, n):
         b = bytearray(n)
-        k = self.fds[fd].readinto(b)
+        while True:
+            try:
+                k = self.fds[fd].readinto(b)
+                break
+            except InterruptedError:
+                continue
         return bytes(b[:k])
 
     def os_ftruncate(self, fd, length):
@@ -445,6 +456,8 @@ class SimFS:
 
         if p in self.dirs:
             return os.stat_result((_stat.S_IFDIR | 0o755, 1, 1, 1, 0, 0, 4096, 0, 0, 0))
+        if p in self.files and p in self.fifos:
+            return os.stat_result((_stat.S_IFIFO | 0o600, sum(p.encode()) & 0xFFFF, 1, 1, 0, 0, 0, 0, 0, 0))
         if p in self.files:
             mode = 0o444 if p in self.ro else 0o644
             mt = int(self.mtimes.get(p, 1000.0))
@@ -554,7 +567,8 @@ class SimFS:
         return p in self.files or p in self.dirs
 
     def isfile(self, path, *a, **kw):
-        return self.norm(path) in self.files
+        p = self.norm(path)
+        return p in self.files and p not in self.fifos
 
     def isdir(self, path, *a, **kw):
         return self.norm(path) in self.dirs
